@@ -53,7 +53,7 @@ PRESENCE_KEYS = ("wrapper-binding", "contract:", "requested-fraction-rebound", "
                  "helper-drops-list", "list-dropped", "rewrite:", "crossed", "literal:", "labels-must-write", "split-index", "src-index", "commit-filter", "append-", "commit-once",
                  "copy-false", "default-copy", "cov-aweights", "bincount-minlength", "producer-loop-skips", "crossed-argument", "pass-through:", "memo-reset", "memo-init",
                  "scheme-name", "cap-last", "accept-comparison", "fresh-uniform", "dispatch:", "mapper", "mode-precedence", "wrapper-no-rng", "materialised", "pool-attr", "bisect-table",
-                 "temp-open-mode", "non-atomic-copy-of-checkpoint", "label-cut-at-dot", "definition-time", "import-time:", "fit-result-altered", "mode-entry", "one-parameter-set", "component-columns-selected", "den-clamped", "bool-identity", "counter-clobbered", "cluster-frame")
+                 "temp-open-mode", "non-atomic-copy-of-checkpoint", "label-cut-at-dot", "definition-time", "import-time:", "fit-result-altered", "mode-entry", "one-parameter-set", "component-columns-selected", "den-clamped", "bool-identity", "counter-clobbered", "cluster-frame", "ess-count-filtered")
 
 
 # rules that decide through summaries of the helpers they meet (ownership lattice, label provenance): a violation they
